@@ -27,7 +27,7 @@ type c05Reuse struct {
 	Family     string `json:"family"`
 	First      int    `json:"first_type"`
 	Second     int    `json:"second_type"`
-	ViaFamily  bool   `json:"via_family_decoder,omitempty"`  // Gmm/GsmMessageDecode instead of PlainNasDecode
+	ViaFamily  bool   `json:"via_family_decoder,omitempty"`    // Gmm/GsmMessageDecode instead of PlainNasDecode
 	FirstShort bool   `json:"first_input_truncated,omitempty"` // the first decode is rejected after the type dispatch
 }
 
